@@ -389,4 +389,5 @@ func runC05(e *Engine, r *Report) {
 			return ok && add != nil && e.CallsTo(c, add)
 		})
 	}
+	ruleRegisterOnce(e, r)
 }
